@@ -15,8 +15,8 @@ LEVEL = 'exploration'
 RULE = ('full product: N in {2,3} (quick) / {2,3,4,5} states with non-degenerate energies and generic fixed overlaps; T in '
         '{8,10,12} (quick) / {8,12,16,24}; t0 = 1..T/3; every state; method {eigh, cholesky}; sort {Eigenvalue, Eigenvector '
         '(every admissible ts), None (every ts)}; vector_obs on/off (on: deviation-bounded to N<=3, T<=10); variants {exact '
-        'symmetric, non-symmetric input, one / two undefined timeslices, level crossing (non-exponential state weights; for N>=3 also a cyclic re-ordering of three states)}; '
-        'Corr.Eigenvalue projected correlator against exp(-E_n (t-t0)); prune to every Ntrunc < N; matrix pencil for k=1..3 '
+        'symmetric, non-symmetric input (on all timeslices / only from t=2 on), one / two undefined timeslices, level crossing (non-exponential state weights; for N>=3 also a cyclic re-ordering of three states)}; '
+        'Corr.Eigenvalue projected correlator against exp(-E_n (t-t0)); prune to every Ntrunc < N (exact energies; projection formula v_i^T G v_j on non-symmetric targets and with undefined timeslices); matrix pencil for k=1..3 '
         'exponentials x every admissible p x single / two data sets.  Non-trivial = every case (each checks the eigen-equation '
         'on every t > t0)')
 ASSUMPTIONS = ['energies and overlaps come from a fixed well-conditioned grid (no near-degenerate spectra)',
@@ -63,7 +63,7 @@ def crossing3_weights(n, t):
     return math.exp(-ENERGIES[n] * t - 0.5 * n)
 
 
-def make_corr(pe, N, T, key, weights=None, antisym=0.0, undefined=()):
+def make_corr(pe, N, T, key, weights=None, antisym=0.0, undefined=(), antisym_from=0):
     """Matrix correlator whose every sample is an exact spectral matrix (only the state amplitudes fluctuate)."""
     ncfg = 8
     r = alpha.rng('c16', key, N, T)
@@ -82,7 +82,7 @@ def make_corr(pe, N, T, key, weights=None, antisym=0.0, undefined=()):
         for i in range(N):
             for j in range(N):
                 x = samples[:, i, j].copy()
-                if antisym and i != j:   # exactly antisymmetric addition: removed by the symmetrisation
+                if antisym and i != j and t >= antisym_from:   # exactly antisymmetric addition: removed by the symmetrisation
                     x = x + (anti[(i, j)] if i < j else -anti[(j, i)])
                 m[i, j] = pe.Obs([x], ['A|r1'])
         content.append(m)
@@ -113,7 +113,7 @@ def build(tier, seed):
     Ts = (8, 10, 12) if tier == 'quick' else (8, 12, 16, 24)
     for N in Ns:
         for T in Ts:
-            for variant in ('exact', 'nonsym', 'undef1', 'undef2', 'crossing') + (('crossing3',) if N >= 3 else ()):
+            for variant in ('exact', 'nonsym', 'nonsym-late', 'undef1', 'undef2', 'crossing') + (('crossing3',) if N >= 3 else ()):
                 cases.append({'kind': 'gevp', 'N': N, 'T': T, 'variant': variant})
         for T in Ts[:2]:
             cases.append({'kind': 'prune', 'N': N, 'T': T})
@@ -162,7 +162,8 @@ def run_gevp(pe, acc, case):
     N, T, variant = case['N'], case['T'], case['variant']
     undefined = {'undef1': (T // 2,), 'undef2': (2, T - 2)}.get(variant, ())
     weights = crossing_weights if variant == 'crossing' else crossing3_weights if variant == 'crossing3' else None
-    C = make_corr(pe, N, T, variant, weights=weights, antisym=(0.003 if variant == 'nonsym' else 0.0), undefined=undefined)
+    C = make_corr(pe, N, T, variant, weights=weights, antisym=(0.003 if variant in ('nonsym', 'nonsym-late') else 0.0), undefined=undefined,
+                  antisym_from=(2 if variant == 'nonsym-late' else 0))     # 'late': symmetric on the first timeslices, non-symmetric afterwards
     G = {t: mean_matrix(C, t) for t in range(T) if t not in undefined}
     for t0 in range(1, T // 3 + 1):
         if t0 in undefined:
@@ -409,6 +410,39 @@ def run_prune(pe, acc, case):
                 acc.fail('prune:energies', sub, 'N=%d -> %d (tproj=%d, t0proj=%d): %s' % (N, Ntrunc, tproj, t0proj, bad))
             else:
                 acc.ok(('prune', N, T, Ntrunc, t0proj, tproj), True, 'prune')
+    # the projection formula itself, also for non-symmetric target matrices and with undefined timeslices:
+    # G'_ij(t) = v_i^T G(t) v_j with the vectors of the (symmetrised) GEVP at (t0proj, tproj)
+    for variant, kw in (('nonsymmetric', {'antisym': 0.02}), ('undefined', {'undefined': (0, T - 2)}), ('nonsymmetric+undefined', {'antisym': 0.02, 'undefined': (T - 3,)})):
+        G = make_corr(pe, N, T, 'prune', **kw)
+        for Ntrunc in range(1, N):
+            t0proj, tproj = 1, 2
+            sub = dict(case, Ntrunc=Ntrunc, variant=variant)
+            try:
+                P = G.prune(Ntrunc, tproj=tproj, t0proj=t0proj)
+                vecs = G.GEVP(t0proj, tproj, sort=None)[:Ntrunc]
+            except Exception as e:
+                acc.fail('prune:%s:raised' % variant, sub, 'prune(%d) on a %s matrix raised %r' % (Ntrunc, variant, e))
+                continue
+            bad = None
+            for t in range(T):
+                if G.content[t] is None:
+                    if P.content[t] is not None:
+                        bad = 'timeslice %d is defined in the pruned correlator but undefined in the input' % t
+                    continue
+                if P.content[t] is None:
+                    bad = 'timeslice %d undefined in the pruned correlator' % t
+                    break
+                for i in range(Ntrunc):
+                    for j in range(Ntrunc):
+                        e = vecs[i] @ G.content[t] @ vecs[j]
+                        g = P.content[t][i, j] if Ntrunc > 1 else np.asarray(P.content[t]).ravel()[0]
+                        sc = abs(e.value) + 1e-12
+                        if not (abs(g.value - e.value) <= 1e-10 * sc and np.max(np.abs(g.deltas['A|r1'] - e.deltas['A|r1'])) <= 1e-10 * sc):
+                            bad = bad or 'element (%d,%d) at t=%d: %r, v_i^T G v_j = %r' % (i, j, t, g.value, e.value)
+            if bad:
+                acc.fail('prune:%s' % variant, sub, 'prune(%d) of a %s %dx%d matrix: %s' % (Ntrunc, variant, N, N, bad))
+            else:
+                acc.ok(('prune', N, T, Ntrunc, variant), True, 'prune-' + variant)
     for bad_n in (N, N + 1):
         try:
             C.prune(bad_n)
